@@ -174,6 +174,39 @@ theorem approveBatch_cons (s : St) (now : Int) (caller r id : Nat) (ids : List N
   simp only [approveBatch]
   cases approve s now caller id r <;> rfl
 
+/-- **Batch cancel is a list of ordinary cancels for ONE executor and ONE rent receiver**: a successful batch means the
+caller is a TIMELOCK_ADMIN and every listed buffer existed, belonged to the executor named by the call, recorded the
+rent receiver named by the call (who therefore gets its rent) and is closed; unlisted buffers, the delay and the role
+table are unchanged; no buffer is listed twice. -/
+theorem cancelBatch_spec {s s' : St} {caller r rr : Nat} {ids : List Nat}
+    (h : cancelBatch s caller r rr ids = some s') :
+    s.mem caller ADMIN = true ∧
+    (∀ id, id ∈ ids → ∃ b, s.bufs id = some b ∧ b.role = r ∧ b.rentReceiver = rr ∧ s'.bufs id = none) ∧
+    (∀ id, id ∉ ids → s'.bufs id = s.bufs id) ∧ s'.delay = s.delay ∧ s'.mem = s.mem ∧ ids.Nodup := by
+  obtain ⟨hm, hd, hmem, hin, hout, hnd⟩ := cancelBatch_some ids h
+  exact ⟨hm, hin, hout, hd, hmem, hnd⟩
+
+/-- **One bad buffer rejects the whole batch cancel**: a listed buffer that is missing, belongs to another role's
+executor or records another rent receiver — or a caller who is not an admin — and nothing is cancelled. -/
+theorem cancelBatch_bad_rejected (s : St) (caller r rr : Nat) (ids : List Nat)
+    (hbad : s.mem caller ADMIN = false ∨ ∃ id, id ∈ ids ∧ ∀ b, s.bufs id = some b → b.role ≠ r ∨ b.rentReceiver ≠ rr) :
+    cancelBatch s caller r rr ids = none := by
+  rcases Option.eq_none_or_eq_some (cancelBatch s caller r rr ids) with h | ⟨s', h⟩
+  · exact h
+  · obtain ⟨hm, _, _, hin, _, _⟩ := cancelBatch_some ids h
+    rcases hbad with hb | ⟨id, hid, hb⟩
+    · rw [hm] at hb; cases hb
+    · obtain ⟨b, hb', hr, hrr, _⟩ := hin id hid
+      rcases hb b hb' with h1 | h1
+      · exact absurd hr h1
+      · exact absurd hrr h1
+
+/-- the batch is equivalent to cancelling its buffers one after the other. -/
+theorem cancelBatch_cons (s : St) (caller r rr id : Nat) (ids : List Nat) :
+    cancelBatch s caller r rr (id :: ids) = (cancel s caller id r rr).bind (fun s1 => cancelBatch s1 caller r rr ids) := by
+  simp only [cancelBatch]
+  cases cancel s caller id r rr <;> rfl
+
 /-- **Execution requires, with the approval-time clause**: in any state reached from an empty timelock by any history
 (ghost `held` maintained by `gstep`: set at approval to "the approver holds the timelocked role of the executor the
 buffer belongs to"), a successful execution means the buffer is approved, its approver held the buffer's own
@@ -332,5 +365,19 @@ example : (run (init 300) (batchOps ++ [.approveb 110 2 1 [3, 3]])).2.getLast? =
 example : (grun (ginit 300) (batchOps ++ [.approveb 110 2 1 [3]])).1.held 3 = true ∧
     (grun (ginit 300) (batchOps ++ [.approveb 110 2 1 [3]])).1.held 4 = false ∧
     (exec (grun (ginit 300) (batchOps ++ [.approveb 110 2 1 [3]])).1.s 410 0 3 1 0).isSome = true := by decide
+
+/-! batch cancel: admin 1 cancels buffers 3 and 5 (role 1, rent receiver 0) in one batch; a batch that also lists buffer 4
+(role 0) is rejected as a whole; so is a batch by a non-admin, one naming another rent receiver, one listing a buffer twice. -/
+private def cbOps : List Op :=
+  [.grant 0 KEEPER, .grant 1 ADMIN, .create 100 0 3 1 2 0 0 0 "-" [] [], .create 100 0 5 1 2 0 0 0 "-" [] [],
+   .create 100 0 4 0 2 0 0 0 "-" [] []]
+example : (run (init 300) (cbOps ++ [.cancelb 110 1 1 0 [3, 5]])).2.getLast? = some (.cancelledBatch [3, 5]) ∧
+    ((run (init 300) (cbOps ++ [.cancelb 110 1 1 0 [3, 5]])).1.bufs 3).isNone = true ∧
+    ((run (init 300) (cbOps ++ [.cancelb 110 1 1 0 [3, 5]])).1.bufs 4).isSome = true := by decide
+example : (run (init 300) (cbOps ++ [.cancelb 110 1 1 0 [3, 4]])).2.getLast? = some .none ∧
+    (run (init 300) (cbOps ++ [.cancelb 110 0 1 0 [3]])).2.getLast? = some .none ∧
+    (run (init 300) (cbOps ++ [.cancelb 110 1 1 2 [3]])).2.getLast? = some .none ∧
+    (run (init 300) (cbOps ++ [.cancelb 110 1 1 0 [3, 3]])).2.getLast? = some .none ∧
+    (run (init 300) (cbOps ++ [.cancelb 110 1 1 0 []])).2.getLast? = some (.cancelledBatch []) := by decide
 
 end Gmx.C36
